@@ -22,7 +22,7 @@ import types
 import z3
 
 from . import extract, smt, sym
-from .sym import SV, Raised, Unsupported
+from .sym import SV, Raised, Unsupported, has_sym
 
 _fresh = itertools.count()
 
@@ -527,7 +527,7 @@ class CoreInterp(sym.Interp):
         tok = self.spec.loop_begin(self, selfobj)
         # 1. invariant at entry
         for label, g in inv['inv'](self, selfobj, frame):
-            self.oblige(f'loop@{s.lineno}/entry/{label}', g)
+            self.oblige(f'{self.site(s)}/entry/{label}', g)
         # 2. havoc
         pre = selfobj.snap() if isinstance(selfobj, AObj) else None
         self.spec.havoc(self, selfobj, inv.get('modifies', []), frame, inv.get('locals', []))
@@ -543,14 +543,14 @@ class CoreInterp(sym.Interp):
             except sym._Break:
                 raise Unsupported('break in invariant loop')
             for label, g in inv['inv'](self, selfobj, frame):
-                self.oblige(f'loop@{s.lineno}/preserve/{label}', g)
+                self.oblige(f'{self.site(s)}/preserve/{label}', g)
             if variant0 is not None:
                 v1 = inv['variant'](self, selfobj, frame)
                 a0, a1 = (variant0 if isinstance(variant0, tuple) else (variant0,)), (v1 if isinstance(v1, tuple) else (v1,))
                 dec = z3.BoolVal(False)
                 for ix in range(len(a0)):
                     dec = z3.Or(dec, z3.And(*[a1[j] == a0[j] for j in range(ix)], a1[ix] < a0[ix]))
-                self.oblige(f'loop@{s.lineno}/variant-decreases', z3.And(dec, *[x >= 0 for x in a0]))
+                self.oblige(f'{self.site(s)}/variant-decreases', z3.And(dec, *[x >= 0 for x in a0]))
             raise LoopIterationDone()
         # loop exit: continue after the loop
         self.spec.loop_end(self, tok)
@@ -588,7 +588,7 @@ class CoreInterp(sym.Interp):
         self.ghost[rkey] = R
         tok = self.spec.loop_begin(self, selfobj)
         for label, g in inv['inv'](self, selfobj, frame):
-            self.oblige(f'loop@{s.lineno}/entry/{label}', g)
+            self.oblige(f'{self.site(s)}/entry/{label}', g)
         self.spec.havoc(self, selfobj, inv.get('modifies', []), frame, inv.get('locals', []))
         R = ZBag.havoc(bag.esort, 'R')
         for f in R.wf():
@@ -614,7 +614,7 @@ class CoreInterp(sym.Interp):
                 self.spec.loop_end(self, tok)
                 return None
             for label, g in inv['inv'](self, selfobj, frame):
-                self.oblige(f'loop@{s.lineno}/preserve/{label}', g)
+                self.oblige(f'{self.site(s)}/preserve/{label}', g)
             raise LoopIterationDone()
         self.ghost[rkey] = ZBag(bag.esort, name='R')
         self.spec.loop_end(self, tok)
